@@ -336,3 +336,11 @@ def replay(ctx, payload):
     for f in ctx.failures:
         print("  failure:", f["key"], "-", f["what"])
     return not ctx.failures
+
+
+CLAIM = dict(
+    text='Lean 4 proof, by induction over ALL server page histories, that the pager model yields the items of the pages up to and including the first empty token exactly once and in order, sends exactly the received tokens, leaves every other request field and call option unchanged, stops at the first empty token, and exposes the last page; and an iff-characterisation of paged_result_field (incl. the max_results precedence). Tie: T2 the real Method.paged_result_field vs the model on generated shapes; T3 the emitted sync and asyncio pagers against a loopback gRPC server with scripted histories vs the model; a model-independent oracle restating the property.',
+    technique='Lean 4 theorems (induction on page histories; iff-characterisation of the classifier) + differential T2/T3 against the emitted pagers',
+    design='7.7',
+    note="The pager's loop is modelled from pagers.py.j2 by hand; maps are compared per page as sets. A server that never returns an empty token is outside the model.",
+)
